@@ -68,7 +68,7 @@ pub fn campaigns(p: Prop) -> Vec<Campaign> {
         Prop::C08 => vec![c("set-algebra", SetAlg, &[T, T, P], 28, (1500, 60_000)), cs((300, 12_000)), cw((25, 1000))],
         Prop::C09 => vec![c("map-walks", MapHist, &[T, T, T, P, P, STR, ZK, ZV, ZB, L, ZD], 40, (2000, 80_000)), c("set-walks", SetHist, &[T, T, P, P, ZK, ZD], 40, (1000, 40_000)), cb("map-big", MapHist, &[T, P], 24, (80, 3000)), cw((25, 1000)), cl("map-long-histories", MapHist, &[T, T, P])],
         Prop::C10 => vec![c("map-consume", MapHist, &[T, T, T, P, P, STR, ZK, ZV, ZB, TG, L, ZD, FT], 40, (2000, 80_000)), c("set-consume", SetHist, &[T, T, P, P, ZK, ZD], 40, (1000, 40_000)), cb("map-big", MapHist, &[T, P], 24, (80, 3000)), cw((25, 1000)), cl("map-long-histories", MapHist, &[T, T, P])],
-        Prop::C11 => vec![Campaign { name: "entry-closures-that-panic", engine: MapHist, kinds: &[T, T, P], max_ops: 8, cases: (40, 1500), caps: Some(&[0, 1, 2, 3, 4, 5]), fault: true }, c("entry", MapHist, &[T, T, T, P, P, STR, ZV, ZB, TG, L, ZD, FT], 40, (2500, 120_000)), cb("map-big", MapHist, &[T, P], 30, (80, 3000)), cl("map-long-histories", MapHist, &[T, T, P])],
+        Prop::C11 => vec![Campaign { name: "entry-closures-that-panic", engine: MapHist, kinds: &[T, T, P], max_ops: 8, cases: (40, 1500), caps: Some(&[0, 1, 2, 3, 4, 5]), fault: true }, c("entry", MapHist, &[T, T, T, P, P, STR, ZV, ZB, TG, L, ZD, FT], 40, (2500, 120_000)), cb("map-big", MapHist, &[T, P], 30, (80, 3000)), cl("map-long-histories", MapHist, &[T, T, P]), cs((150, 6_000))],
         Prop::C12 => vec![c("map-key-identity", MapHist, &[T, T, TG, FT], 40, (2000, 100_000)), c("set-key-identity", SetHist, &[T, T, TG, FT], 40, (1200, 60_000)), cb("map-big", MapHist, &[T], 30, (80, 3000)), cb("set-big", SetHist, &[T], 30, (60, 2500)), cl("map-long-histories", MapHist, &[T, T, P]), cl("set-long-histories", SetHist, &[T, T, P]), cs((300, 12_000))],
         Prop::C13 => vec![c("disjoint", MapHist, &[T, T, STR, P, PA, PA, L], 30, (1500, 60_000)), cb("map-big", MapHist, &[T, T, P], 24, (80, 3000)), cw((25, 1000)), cs((300, 12_000))],
         Prop::C14 => vec![c("map-equality", MapEq, &[T, P], 24, (2000, 100_000)), c("set-equality", SetAlg, &[T, P], 24, (1000, 50_000)), c("map-equality-histories", MapHist, &[T, T, P], 30, (600, 30_000)), cb("map-equality-big", MapHist, &[T, P], 24, (100, 4000)), cw((25, 1000)), cs((300, 12_000))],
